@@ -209,6 +209,17 @@ def c10(tier):
 # ------------------------------------------------------------------------------------------------
 # C05
 
+P("C03", explanation="E2 step induction s_step.c", bounds={"quick": "", "thorough": ""}, outside="")
+P("C12", explanation="E2 step induction s_step.c", bounds={"quick": "", "thorough": ""}, outside="")
+P("C20", explanation="E3 twin run r_twin.c MODE 0 + r_line endings", bounds={"quick": "", "thorough": ""}, outside="")
+P("C08", explanation="E2 s_step + E3 twin MODE 2 + kernels", bounds={"quick": "", "thorough": ""}, outside="")
+P("C11", explanation="E2 step obligations (s_step.c / s_api.c)", bounds={"quick": "", "thorough": ""}, outside="")
+P("C13", explanation="E2 step obligations (s_step.c / s_api.c)", bounds={"quick": "", "thorough": ""}, outside="")
+P("C14", explanation="E2 step obligations (s_step.c / s_api.c)", bounds={"quick": "", "thorough": ""}, outside="")
+P("C15", explanation="E2 step obligations (s_step.c / s_api.c)", bounds={"quick": "", "thorough": ""}, outside="")
+P("C16", explanation="E2 step obligations (s_step.c / s_api.c)", bounds={"quick": "", "thorough": ""}, outside="")
+P("C17", explanation="E2 step obligations (s_step.c / s_api.c)", bounds={"quick": "", "thorough": ""}, outside="")
+P("C18", explanation="E2 step obligations (s_step.c / s_api.c)", bounds={"quick": "", "thorough": ""}, outside="")
 P("C05", explanation="E1 kernel k_buf.c", bounds={"quick": "", "thorough": ""}, outside="")
 
 
@@ -257,7 +268,179 @@ def c07(tier):
     return with_prop("C07", jobs)
 
 
-REGISTRY = {"C04": c04, "C01": c01, "C02": c02, "C09": c09, "C06": c06, "C10": c10, "C05": c05, "C07": c07}
+# ------------------------------------------------------------------------------------------------
+# E2 step induction jobs (s_step.c), shared by C03 C08 C11 C12 C13 C14 C15 C18
+
+CSTATES = list(range(-1, 25))
+USTATES = list(range(0, 11))
+
+
+def step_jobs(prop, tier, checks=False, calls=1, pairs=None, ringcaps=(1,), seps=(0,), capc=None):
+    capc = capc or (8 if tier == "quick" else 12)
+    jobs = []
+    if pairs is None:
+        pairs = []
+        for s in CSTATES:
+            for u in ((0, 5, 6) if tier == "quick" else USTATES):
+                pairs.append((s, u))
+        for u in USTATES:
+            for s in (0, 17, 19):
+                if (s, u) not in pairs:
+                    pairs.append((s, u))
+    for rc in ringcaps:
+        for sep in seps:
+            for (s, u) in pairs:
+                if s == 19 and u == 6:
+                    continue  # excluded by RI (never both flushing): vacuous
+                # states that work on "the current variable" are split per variable (one parser / formatter per job)
+                vsels = list(range(6)) if s in (9, 10, 12) else [-1]
+                uvsels = list(range(6)) if u in (1, 2) else [-1]
+                uhrets = [-1, 0, 1, 2, 3, 5, 6, 7, 99] if u in (3, 4) else [None]
+                for vs in vsels:
+                  for uh in uhrets:
+                    for uvs in uvsels:
+                        d = {"STATE": s, "USTATE": u, "SEP": sep, "CALLS": calls, "RINGCAP": rc, "CAT_UNSOLICITED_CMD_BUFFER_SIZE": rc, "CAPC_MAX": capc}
+                        name = "s_step.s%d.u%d.r%d%s%s" % (s, u, rc, ".sep" if sep else "", ".x2" if calls == 2 else "")
+                        if not sep and u in (0, 1, 2, 3, 4, 9, 10):
+                            # the event FSM formats into its half: keep that half at a concrete offset (symbolic sizes: SEP=1 jobs)
+                            d["BUFSZ"] = 2 * capc
+                            name += ".b%d" % (2 * capc)
+                        if vs >= 0:
+                            d["VSEL"] = vs
+                            name += ".v%d" % vs
+                        if uvs >= 0:
+                            d["UVSEL"] = uvs
+                            name += ".w%d" % uvs
+                        if uh is not None:
+                            d["UHRET"] = "(%d)" % uh
+                            name += ".h%s" % str(uh).replace("-", "m")
+                        jobs.append(Job(name.replace("s-1", "sE"), "s_step.c", d, unwind=2 * capc + 4,
+                                        unwindset=uws(capc + 1, strl=8, nvars=6, groups=2, m=3), checks=checks, timeout=900, samples=20000,
+                                        required_witness=["end-of-scenario"]))
+    return with_prop(prop, jobs)
+
+
+# ------------------------------------------------------------------------------------------------
+# s_api.c jobs: small API functions (C13 C14 C16 C17 C18)
+
+API_FN = {0: "is_busy", 1: "is_hold", 2: "buffer_full", 3: "trigger_event", 4: "trigger_read", 5: "trigger_test", 6: "hold_exit",
+          7: "event_buffered", 8: "get_processed"}
+
+
+def api_jobs(prop, fns, mutex, havoc, ringcaps):
+    jobs = []
+    for rc in ringcaps:
+        for fn in fns:
+            d = {"FN": fn, "MUTEX": mutex, "HAVOC": havoc, "RINGCAP": rc, "CAT_UNSOLICITED_CMD_BUFFER_SIZE": rc}
+            name = "s_api.%s.r%d%s%s" % (API_FN[fn], rc, ".mutex" if mutex else "", ".havoc" if havoc else "")
+            jobs.append(Job(name, "s_api.c", d, unwind=12, checks=False, timeout=600, samples=50000,
+                            required_witness=["end-of-scenario", "lock-obtained"]))
+    return with_prop(prop, jobs)
+
+
+# ------------------------------------------------------------------------------------------------
+# twin runs (r_twin.c): C20 fresh vs junk-idle, C12 eager vs scheduled, C08 write-only non-interference
+
+
+def twin_job(prop, mode, shape, r=2, cap=(12, 24), **kw):
+    j = shape_job(prop, shape, harness="r_twin.c", cap=cap, extra={"MODE": mode, "R": r}, name="m%d.%s" % (mode, shape.replace("?", "q").replace("=", "e")), **kw)
+    if mode == 1:
+        j.defines["N"] = int(j.defines["N"]) + 2 * r
+        j.unwind = max(j.unwind, int(j.defines["N"]) + 2)
+    return j
+
+
+TWIN_SHAPES_QUICK = ["ATL", "ATnL", "ATnn?L", "ATn=aL", "ATnn=aaL", "ATn=?L", "gxL", "ATngL"]
+
+
+def c20(tier):
+    jobs = [twin_job("C20", 0, sh) for sh in TWIN_SHAPES_QUICK]
+    for shape in ("ATnRL", "ATn?RL", "RATnL", "ATRnL", "ATn=aRL", "AgRL"):
+        jobs.append(shape_job("C20", shape, required_witness=["end-of-scenario", "a-result-code"]))
+    return with_prop("C20", jobs)
+
+
+def c12(tier):
+    jobs = step_jobs("C12", tier)
+    jobs += [twin_job("C12", 1, sh) for sh in ("ATnL", "ATn?L", "ATn=aL", "gxL")]
+    return with_prop("C12", jobs)
+
+
+def c08(tier):
+    jobs = step_jobs("C08", tier)
+    jobs += [twin_job("C08", 2, sh) for sh in ("ATn?L", "ATnn?L", "ATn=?L")]
+    for vt in (0, 1, 2):
+        jobs.append(Job("k_num.vt%d.len8" % vt, "k_num.c", {"VT": vt, "LEN": 8, "DS": 0}, unwind=14, timeout=600, samples=20000))
+    for vt in (3, 4):
+        jobs.append(Job("k_buf.vt%d.len10" % vt, "k_buf.c", {"VT": vt, "LEN": 10}, unwind=16, timeout=600, samples=20000))
+    return with_prop("C08", jobs)
+
+
+def c15(tier):
+    # safety half: OK means quiescent (two consecutive calls), for every ring capacity; liveness half: r_line's step bound
+    pairs = [(s, 0) for s in CSTATES] + [(0, u) for u in USTATES if u != 0] + [(19, 5), (18, 6), (17, 0)]
+    jobs = []
+    for rc in ((1, 2) if tier == "quick" else (1, 2, 3, 8)):
+        jobs += step_jobs("C15", tier, calls=2, pairs=pairs, ringcaps=(rc,))
+    for shape, lines in (("ATnL", 1), ("ATn?L", 1), ("ATn=aL", 1), ("ATLATL", 2), ("gxL", 1)):
+        jobs.append(shape_job("C15", shape, lines=lines))
+    return with_prop("C15", jobs)
+
+
+def c18(tier):
+    jobs = step_jobs("C18", tier)
+    jobs += api_jobs("C18", (0, 1), 0, 0, (1,))
+    for shape, lines in (("ATnL", 1), ("ATn?L", 1), ("ATn=aL", 1), ("ATLATL", 2), ("gxL", 1), ("***", 2)):
+        jobs.append(shape_job("C18", shape, lines=lines))
+    return with_prop("C18", jobs)
+
+
+def c11(tier):
+    return step_jobs("C11", tier)
+
+
+def c13(tier):
+    jobs = []
+    for rc in ((1, 2, 3) if tier == "quick" else (1, 2, 3, 8)):
+        pairs = [(0, u) for u in USTATES] + [(19, 0), (17, 0), (8, 0)]
+        jobs += step_jobs("C13", tier, pairs=pairs, ringcaps=(rc,))
+    jobs += api_jobs("C13", (2, 3, 4, 5, 7, 8), 0, 0, (1, 2, 3) if tier == "quick" else (1, 2, 3, 8))
+    return with_prop("C13", jobs)
+
+
+def c14(tier):
+    pairs = [(17, u) for u in USTATES] + [(13, 0), (14, 0), (15, 0), (16, 0), (0, 3), (0, 4)]
+    jobs = step_jobs("C14", tier, pairs=pairs)
+    jobs += api_jobs("C14", (6,), 0, 0, (1,))
+    return with_prop("C14", jobs)
+
+
+def c16(tier):
+    jobs = api_jobs("C16", (0, 1, 2, 3, 4, 5, 6), 1, 0, (1, 2) if tier == "quick" else (1, 2, 3, 8))
+    pairs = [(s, 0) for s in CSTATES] + [(0, u) for u in USTATES if u != 0] + [(19, 5), (18, 6)]
+    sj = step_jobs("C16", tier, pairs=pairs)
+    for j in sj:
+        j.defines["MUTEX"] = 1
+        j.name += ".mutex"
+    return with_prop("C16", jobs + sj)
+
+
+def c17(tier):
+    jobs = api_jobs("C17", (0, 1, 2, 3, 4, 5, 6), 1, 1, (1, 2) if tier == "quick" else (1, 2, 3, 8))
+    pairs = [(s, 0) for s in CSTATES] + [(0, u) for u in USTATES if u != 0] + [(19, 5), (18, 6)]
+    sj = step_jobs("C17", tier, pairs=pairs)
+    for j in sj:
+        j.defines["MUTEX"] = 1
+        j.name += ".mutex"
+    return with_prop("C17", jobs + sj)
+
+
+REGISTRY = {"C04": c04, "C01": c01, "C02": c02, "C09": c09, "C06": c06, "C10": c10, "C05": c05, "C07": c07,
+            "C03": lambda tier: step_jobs("C03", tier, checks=True),
+            "C12": c12, "C20": c20, "C08": c08,
+            "C15": lambda tier: c15(tier), "C18": lambda tier: c18(tier), "C11": lambda tier: c11(tier),
+            "C13": lambda tier: c13(tier), "C14": lambda tier: c14(tier), "C16": lambda tier: c16(tier), "C17": lambda tier: c17(tier),
+            }
 
 
 def jobs_for(prop, tier):
